@@ -135,7 +135,8 @@ def r2_unique(ctx, F):
         if ok:
             ctx.ok("C11.R2", key + ":failed-lookup", "dominated by the miss edge of a lookup")
             continue
-        reason = UNIQUE_TABLE.get(s)
+        from kern import reviewed
+        reason = reviewed(F, UNIQUE_TABLE, s)
         if reason is None and t.name == "__starlark_invoke_impl":
             reason = None
         ctx.check(reason is not None, "C11.R2", key, "reviewed: " + (reason or ""),
